@@ -38,8 +38,34 @@ TEMPLATES = {
     ('cpp', 'support'): 'src/nunavut/lang/cpp/support/serialization.j2',
 }
 FILTER = 'to_static_assertion_value'
-# message pieces that interpolate the DSDL path without escaping (OptGuard.v raw_path_msg_exprs; finding F-OPTGUARD-MSG-PATH)
-RAW_PATH_EXPRS = ('T.source_file_path.as_posix() if nunavut.embed_auditing_info else T.source_file_path.name', 'T.source_file_path.as_posix()')
+ESCAPED_PATH = '<escaped-path>'    # message piece: the DSDL path passed through the regenerated chain of `replace` filters
+_JSTR = r'''(?:"(?:[^"\\]|\\.)*"|'(?:[^'\\]|\\.)*')'''
+_PATH_RX = re.compile(r'\(?T\.source_file_path\.as_posix\(\)((?: \| replace\(' + _JSTR + ', ' + _JSTR + r'\))*)\)? if nunavut\.embed_auditing_info else T\.source_file_path\.name')
+
+
+def classify_msg_exprs(exprs: typing.List[str], where: str) -> typing.Tuple[typing.List[str], typing.List[typing.Tuple[str, str]]]:
+    """replace the path expression by the token ESCAPED_PATH and return its chain of (from, to) replacements (applied left to right);
+    a raw path is ESCAPED_PATH with an empty chain.  All path pieces of one template must use the same chain."""
+    out, chain = [], None
+    for e in exprs:
+        m = _PATH_RX.fullmatch(e)
+        if e == 'T.source_file_path.as_posix()':
+            m, this = True, []
+        elif m:
+            this = []
+            for a, b in re.findall(r'replace\((' + _JSTR + '), (' + _JSTR + r')\)', m.group(1)):
+                fa, fb = ast.literal_eval(a), ast.literal_eval(b)
+                if len(fa) != 1:
+                    raise Unsupported('%s: replace(%s, ...) in a message: only single characters are modelled' % (where, a))
+                this.append((fa, fb))
+        if m:
+            if chain is not None and chain != this:
+                raise Unsupported('%s: the messages escape the path in different ways' % where)
+            chain = this
+            out.append(ESCAPED_PATH)
+        else:
+            out.append(e)
+    return sorted(set(out)), (chain or [])
 LOCAL_INCLUDE = '"verif_%s.hpp"'             # value of an *_include option: a quoted include path
 SPECIAL_SUFFIX = ' /* 100% "q" \\a */'       # harmless in code (a comment), hostile inside a string literal
 MESSAGE = 'different language options'
@@ -508,7 +534,8 @@ def scan_loop(lang: str, kind: str, text: str) -> dict:
         raise Unsupported('%s: the key-set fingerprint and the option loop are not under the same omit condition' % where)
     return {'iter': iter_expr, 'skip': sorted(set(skip)), 'name': name, 'value': val, 'unless_omit': unless_omit,
             'keyset': keyset['symbol'] if keyset else None,
-            'msg_exprs': sorted(set(msg_exprs + (keyset['msg_exprs'] if keyset else []))),
+            'msg_exprs': classify_msg_exprs(msg_exprs + (keyset['msg_exprs'] if keyset else []), where)[0],
+            'path_escape': classify_msg_exprs(msg_exprs + (keyset['msg_exprs'] if keyset else []), where)[1],
             'in_comment': in_comment, 'pp': pp, 'includes_before': includes_before}
 
 
@@ -745,10 +772,11 @@ def docs_option_values(keys: typing.Iterable[str]) -> typing.Dict[str, list]:
 
 
 def _coq_side(name: str, s: dict) -> str:
-    return ('Definition %s : side :=\n  {| sd_iter := %s;\n     sd_skip := [%s];\n     sd_name := %s;\n     sd_value := %s;\n     sd_unless_omit := %s;\n     sd_keyset := %s;\n     sd_msg_exprs := [%s];\n     sd_in_comment := %s;\n     sd_pp_context := [%s];\n     sd_includes_before := %s |}.'
+    return ('Definition %s : side :=\n  {| sd_iter := %s;\n     sd_skip := [%s];\n     sd_name := %s;\n     sd_value := %s;\n     sd_unless_omit := %s;\n     sd_keyset := %s;\n     sd_msg_exprs := [%s];\n     sd_path_escape := [%s];\n     sd_in_comment := %s;\n     sd_pp_context := [%s];\n     sd_includes_before := %s |}.'
             % (name, coq_str(s['iter']), '; '.join(coq_str(k) for k in s['skip']), coq_str(s['name']), coq_str(s['value']),
                'true' if s['unless_omit'] else 'false', ('Some %s' % coq_str(s['keyset'])) if s['keyset'] else 'None',
-               '; '.join(coq_str(e) for e in s['msg_exprs']), 'true' if s['in_comment'] else 'false',
+               '; '.join(coq_str(e) for e in s['msg_exprs']),
+               '; '.join('(%d, %s)' % (ord(a), coq_str(b)) for a, b in s['path_escape']), 'true' if s['in_comment'] else 'false',
                '; '.join(coq_str(e) for e in s['pp']), 'true' if s['includes_before'] else 'false'))
 
 
